@@ -218,13 +218,23 @@ class World:
             p = d / f'f{j}'
             p.write_bytes(content)
             files[str(p.resolve())] = content
+        if self.rng.random() < 0.35:
+            # equal sizes, equal base names, different directories, different contents
+            n = self.rng.choice([60, 150, 260])
+            for k in range(self.rng.choice([2, 3])):
+                sub = d / f'd{k}'
+                sub.mkdir()
+                p = sub / 'blob.bin'
+                content = self.rng.randbytes(n)
+                p.write_bytes(content)
+                files[str(p.resolve())] = content
         return d, files
 
     # -- commands (each on a fresh Repository object, like a fresh process)
     async def snapshot(self, user, src_dir, files, backend=None, note=None, record=True):
         r = await self.unlocked(user, backend)
         before = sum(1 for c in self.backend.calls if c[0] == 'upload_stream')
-        res = await r.snapshot(paths=[src_dir], note=note)
+        res = await r.snapshot(paths=list(src_dir) if isinstance(src_dir, (list, tuple)) else [src_dir], note=note)
         uploaded = [c[1] for c in self.backend.calls[0:] if c[0] == 'upload_stream'][before:]
         if not record:
             return res, {r._chunk_digest_to_location(d): (user['fam'], self.did(d)) for d in res.chunks}
@@ -510,7 +520,9 @@ def run_history(seed, scratch: Path, rep: Report, *, nops, weights, checks, conc
                     prev = rng.choice(list(world.snaps.values()))
                     mates = [u for u in world.users if u['fam'] == prev['fam']]
                     user = rng.choice(mates)
-                    src_dir = Path(next(iter(prev['files']))).parent
+                    # the same unchanged files, named one by one in another order
+                    src_dir = [Path(p_) for p_ in prev['files']]
+                    rng.shuffle(src_dir)
                     files = prev['files']
                     present_before = world.referenced() & {(prev['fam'], world.did(d)) for d in prev['table']}
                     all_present = {(prev['fam'], world.did(d)) for d in prev['table']} <= world.lift()[0]
